@@ -67,7 +67,7 @@ class C17(CheckBase):
                    'a message without Accept-Encoding declares nothing acceptable except identity']
     expected_probes = ['corrupt_coding_requests', 'wire_messages', 'chunked_messages', 'coded_messages', 'sloppy_headers', 'large_bodies',
                        'notifications_to_scripted', 'consumer_chunked_responses',
-                       'codings_changed_at_runtime']
+                       'codings_changed_at_runtime', 'incompressible_requests']
     max_steps = 14_000_000
 
     def budget(self, tier):
@@ -100,6 +100,7 @@ class C17(CheckBase):
         return {'sched': draw_sched_config(rng, line_ok=False), 'world': cfg, 'ops': ops, 'reqs': reqs, 'subs': subs,
                 'big_samples': rng.choice([2000, 20000]) if big else 0,
                 'consumer_server_chunk': rng.choice([0, 0, 1, 7, 512]),
+                'incompressible_arg': rng.choice([0, rng.getrandbits(30), rng.getrandbits(30)]),
                 'recode': rng.choice([None, None, [], ['gzip'], ['gzip'] if async_mgr else ['x-lz4'],
                                       ['gzip'] if async_mgr else ['gzip', 'x-lz4']])}
 
@@ -176,6 +177,20 @@ class C17(CheckBase):
                 except W.OpRejected:
                     pass
         w.settle(5.0)
+        # a request of the real consumer whose body hardly compresses (an operation argument of random characters): a
+        # coding may make it longer than the plain text
+        if plan.get('incompressible_arg'):
+            ctx.probe('incompressible_requests')
+            r_ = random.Random(plan['incompressible_arg'])
+            arg = ''.join(r_.choice('ABCDEFGHIJKLMNOPQRSTUVWXYZabcdefghijklmnopqrstuvwxyz0123456789+/') for _ in range(r_.choice([40, 700, 6000])))
+            with worldb.node(worldb.CONSUMER_IPS[0]):
+                try:
+                    res = c.client('Set').set_string('SET_NTP_SRV_mds0', arg).result(timeout=6)
+                    st_ = res.InvocationInfo.InvocationState.value
+                except Exception as ex:  # noqa: BLE001
+                    ctx.violation('C17.lossless', f'request-with-incompressible-body-failed:{type(ex).__name__}',
+                                  f'SetString with an argument of {len(arg)} random characters failed: {ex!r}')
+            w.settle(3.0)
         # the application changes the enabled codings of the running provider
         w.recode = None
         if plan.get('recode') is not None:
